@@ -33,16 +33,19 @@ CONSTS = {
     "tour": (2, 1, '{"a"}', 3, 1, 1, 1),
     "tour2": (2, 2, '{"a"}', 2, 1, 1, 1),
     "gen": (3, 2, '{"a","b"}', 6, 3, 3, 3),
+    "fault": (2, 2, '{"a"}', 3, 1, 1, 1),
+    "w_fault": (1, 2, '{"a"}', 3, 0, 0, 0),
 }
 
 INVS = ["TypeOK", "PrefixInv", "CaughtUp", "SnapFaithful", "AckDurable", "TrackerFaithful"]
 
 
-def write_cfg(ctx, name, consts, mode, spec, invariants=(), props=(), view=None, module_prefix="RaftPinsetMC"):
+def write_cfg(ctx, name, consts, mode, spec, invariants=(), props=(), view=None, module_prefix="RaftPinsetMC", faults=0):
     n, c, v, ml, sn, dn, ins = consts
     lines = ["SPECIFICATION %s" % spec, "CONSTANT NPEERS = %d" % n, "CONSTANT NCIDS = %d" % c,
              "CONSTANT Variants = %s" % v, 'CONSTANT RestoreMode = "%s"' % mode, "CONSTANT MaxLog = %d" % ml,
-             "CONSTANT MaxSnaps = %d" % sn, "CONSTANT MaxDowns = %d" % dn, "CONSTANT MaxInstalls = %d" % ins]
+             "CONSTANT MaxSnaps = %d" % sn, "CONSTANT MaxDowns = %d" % dn, "CONSTANT MaxInstalls = %d" % ins,
+             "CONSTANT MaxFaults = %d" % faults]
     if view:
         lines.append("VIEW %s" % view)
     lines += ["INVARIANT %s" % i for i in invariants]
@@ -96,8 +99,8 @@ def step_of(st):
     last = st["last"]
     s = {"a": last["a"], "p": last["p"], "q": last["q"], "i": last["i"], "call": last["call"],
          "fsm": st["fsm"], "ideal": st["ideal"]["live"], "snapideal": st["ideal"]["snap"], "snap": st["snap"],
-         "applied": st["applied"], "inited": st["inited"], "up": st["up"]}
-    if last["a"] in ("commit", "apply"):
+         "applied": st["applied"], "inited": st["inited"], "up": st["up"], "broken": st["broken"]}
+    if last["a"] in ("commit", "apply", "applyfail"):
         s["op"] = st["log"][last["i"] - 1]
     return s
 
@@ -125,6 +128,9 @@ def spec_stage(ctx):
     if not ctx.quick():
         cfg = write_cfg(ctx, "x_thorough3", CONSTS["thorough3"], "replace", "MCSpec", INVS, ["Monotonic"], view="View")
         ctx.tlc("RaftPinsetMC.tla", cfg, workers=12, timeout=3000)
+    # apply failures (datastore write error): the served view is an error, never a pinset with a hole
+    cfg = write_cfg(ctx, "x_fault", CONSTS["fault"], "replace", "MCSpec", INVS, ["Monotonic"], view="View", faults=1)
+    ctx.tlc("RaftPinsetMC.tla", cfg, workers=8, timeout=3000)
     # history-dependent predicates (last/acked are hidden by the VIEW above): small run without a view
     cfg = write_cfg(ctx, "x_noview", CONSTS["tour2"], "replace", "MCSpec", INVS, ["Monotonic"])
     ctx.tlc("RaftPinsetMC.tla", cfg, workers=4, timeout=1200)
@@ -176,7 +182,7 @@ def tour_scripts(ctx, rng):
 
 
 def sim_scripts(ctx, n, depth):
-    cfg = write_cfg(ctx, "x_gen", CONSTS["gen"], ASCODED, "GenSpec")
+    cfg = write_cfg(ctx, "x_gen", CONSTS["gen"], ASCODED, "GenSpec", faults=1)
     d = ctx.specdir()
     pref = "beh%d" % ctx.seed
     ctx.tlc("RaftPinsetMC.tla", cfg, workers=1, timeout=1800, count=False,
@@ -459,7 +465,7 @@ def run(ctx):
                        "the pinset store is the in-memory datastore ipfs-cluster-service gives to raft",
                        "kill points are between FSM operations (seam 1) and between/inside commits at process level (seam 3), "
                        "not at every fsync"]
-    stages = os.environ.get("VERIF_C01_STAGES", "spec,fsm,raft,gate,repotests").split(",")   # debugging aid
+    stages = os.environ.get("VERIF_C01_STAGES", "spec,fsm,raft,served,gate,repotests").split(",")   # debugging aid
     if "spec" in stages:
         spec_stage(ctx)
     if "fsm" in stages:
@@ -467,10 +473,65 @@ def run(ctx):
         validate(ctx, trace, "fsm", 0)
     if "raft" in stages:
         raft_seam(ctx)
+    if "served" in stages:
+        served_stage(ctx)
     if "gate" in stages:
         gate_stage(ctx)
     if "repotests" in stages:
         repo_tests_stage(ctx)
+
+
+def served_cases_of(states):
+    """One behaviour of RaftPinsetMC on a single peer -> the applied operations with their fail flags and
+    the prefix results TLC computed (ideal.live after the step that consumed entry n)."""
+    ops, prefixes = [], None
+    for st in states:
+        last = st["last"]
+        if prefixes is None:
+            prefixes = [st["ideal"]["live"]["p1"]]
+        if last["a"] in ("apply", "applyfail") and last["p"] == "p1" and last["i"] == len(ops) + 1:
+            e = st["log"][last["i"] - 1]
+            ops.append({"k": e["k"], "cid": e["cid"], "v": e["v"], "fail": last["a"] == "applyfail"})
+            prefixes.append(st["ideal"]["live"]["p1"])
+    return ops, prefixes
+
+
+def served_stage(ctx):
+    """Every pinset a peer serves is a prefix result, also after an apply failed (datastore write error)."""
+    import vcheck
+    consts = (1, 2, '{"a","b"}', 4, 0, 0, 0)
+    behaviours = []
+    cfg = write_cfg(ctx, "x_goal_fault", CONSTS["w_fault"], ASCODED, "MCSpec", [], ["NoApplyAfterFault"], view="View", faults=1)
+    r = ctx.tlc("RaftPinsetMC.tla", cfg, workers=2, timeout=1200, count=False, expect_violation=True)
+    if not r.violation:
+        raise vcheck.Infra("reachability goal NoApplyAfterFault is unreachable in the model")
+    behaviours.append(parse_error_trace(r.out))
+    cfg = write_cfg(ctx, "x_gen_fault", consts, ASCODED, "GenSpec", faults=1)
+    pref = "fbeh%d" % ctx.seed
+    ctx.tlc("RaftPinsetMC.tla", cfg, workers=1, timeout=1800, count=False,
+            simulate="file=%s,num=%d" % (os.path.join(ctx.specdir(), pref), 60 if ctx.quick() else 600), depth=12, seed=ctx.seed)
+    behaviours += read_sims(ctx.specdir(), pref)
+    cases, seen = [], set()
+    for states in behaviours:
+        ops, prefixes = served_cases_of(states)
+        fails = [i for i, o in enumerate(ops) if o["fail"]]
+        if not fails or fails[0] == len(ops) - 1:
+            continue        # interesting: something is applied after the failed entry
+        key = json.dumps(ops)
+        if key in seen:
+            continue
+        seen.add(key)
+        cases.append({"id": len(cases) + 1, "cids": sorted(prefixes[0].keys()), "ops": ops, "prefixes": prefixes})
+    cases = cases[:8 if ctx.quick() else 80]
+    if not cases:
+        raise vcheck.Infra("no behaviour with an apply after a failed apply was generated")
+    inp = os.path.join(ctx.work, "c01_served_cases.ndjson")
+    with open(inp, "w") as f:
+        for c in cases:
+            f.write(json.dumps(c) + "\n")
+    ctx.go_test("c17_member", run="TestServedView", infile=inp, timeout=900,
+                tags="verif,verifhooks" if hooks_present(ctx) else "verif")
+    ctx.extra["served_view_cases"] = len(cases)
 
 
 def gate_present(ctx):
